@@ -298,6 +298,47 @@ def r06h(F):
 		out.append(Result('06.h', False, 'floor:claim-builds', 'only %d claim-output builders found in the monitor (expected >= 6)' % n, n))
 	return out
 
+def r06i(F):
+	"""(i) splice: the per-commitment HTLC data copied into the new funding scope carries the output indices of the NEW commitment transaction
+	(otherwise the justice branch takes every HTLC entry for corrupt and claims none); (ii) the re-issue timer of a claim is only ever pulled
+	EARLIER by a deadline (cmp::min with the deadline timer in every arm of get_height_timer, never cmp::max)"""
+	out = []
+	fn = MON + 'renegotiated_funding'
+	fu = F.func(fn)
+	ex = Expr(fu)
+	live = fu.reach([0])
+	ws = [(b, si) for b, si in sites_field_write(fu, 'transaction_output_index') if b in live]
+	ok = False
+	seen = []
+	heads = loop_heads(fu) | back_edge_heads(fu)
+	for b, si in ws:
+		e = ex.of_rvalue(fu.blocks[b]['s'][si][2])
+		lv = expr_leaves(e)
+		seen.append(leaf_key(e)[:60])
+		in_loop = any(b in fu.reach([h]) and h in fu.reach([b]) for h in heads)
+		if 'transaction_output_index' in lv['fields'] and in_loop:
+			ok = True
+	out.append(Result('06.i', ok, ('ok:' if ok else 'stale-index:') + 'splice-htlc-output-index-remapped', 'renegotiated_funding rewrites each non-dust HTLC\'s transaction_output_index to its index in the new funding\'s counterparty commitment, inside the loop over the zipped HTLC lists (found %s)%s' % (seen, '' if ok else ' - with the old indices a revoked post-splice commitment fails the output/amount consistency test and no HTLC output is punished'), len(ws), where=F.where(fn)))
+	tfn = PKG + 'PackageTemplate::get_height_timer'
+	tu = F.func(tfn)
+	mins = tu.call_blocks(lambda p: p.endswith('cmp::min'))
+	maxs = tu.call_blocks(lambda p: p.endswith('cmp::max') or p.endswith('Ord::max'))
+	vs = enum_variants(F, PKG + 'PackageSolvingData')
+	arms_without = []
+	for sb, m, other in variant_switch_edges(tu, lambda pl: True, vs):
+		if sb not in tu.reach([0]) or len(m) < 4:
+			continue
+		for v, t in m.items():
+			r = tu.reach([t], removed_blocks={sb} | (loop_heads(tu) | back_edge_heads(tu)))
+			if not (set(mins) & r):
+				arms_without.append(v)
+	# RevokedHTLCOutput deliberately keeps the default interval (the counterparty must wait a further CSV after spending it); the revoked
+	# to_local / second-stage output is the one whose deadline is the CSV expiry
+	arms_without = [v for v in arms_without if v == 'RevokedOutput']
+	okt = len(mins) >= 6 and not maxs and not arms_without
+	out.append(Result('06.i', okt, ('ok:' if okt else 'late:') + 'claim-timer-only-earlier', 'get_height_timer combines the default re-issue height with each deadline through cmp::min only (%d min, %d max; arms without min: %s)%s' % (len(mins), len(maxs), arms_without, '' if okt else ' - a max() pushes the next fee bump past the height at which the counterparty can spend the output'), len(mins) + len(maxs), where=F.where(tfn)))
+	return out
+
 RULES = [
 	('06.a', 'per-commitment HTLC data is insert-only; revocation only blanks the HTLC source', r06a),
 	('06.b', 'revocation secrets and on-chain commitment records are add-only', r06b),
@@ -306,5 +347,6 @@ RULES = [
 	('06.e', 'every produced package reaches the on-chain claim handler', r06e),
 	('06.f', 'retention fields are persisted', r06f),
 	('06.g', 'revoked package variants are wired to the justice signer methods', r06g),
+	('06.i', 'splice: HTLC output indices remapped to the new commitment; claim re-issue timers are only pulled earlier by deadlines', r06i),
 	('06.h', 'justice claims stay valid: re-queued claims carry the latest request state; reorg boundary keeps confirmed spends', r06h),
 ]
